@@ -729,6 +729,25 @@ def follow_up(ex, d, case, problems, where):
     ex.env['monitor'].errors.clear()
     nviol = len(st.violations)
     pre = st.snapshot()
+    # the stitched basis of the follow-up run: every file it lists is unchanged in the source, so it must be reused
+    latest = max(bands) if bands else None
+    basis_files = []
+    if latest is not None:
+        srcp = {f.path: f for f in tree.files}
+        for (bb, pth) in expected_stitch(ex, st, latest):
+            if pth in srcp and srcp[pth].kind == 'File':
+                info_ = bands[bb]
+                for hn in info_['hunks']:
+                    for e_ in info_['hunks'][hn] or []:
+                        ef_ = entry_fields(ex, e_)
+                        if ef_['apath'] == pth and ef_['kind'] == 'File':
+                            f_ = srcp[pth]
+                            tot_ = 0
+                            for a_ in ef_['addrs']:
+                                tot_ = tot_ + field(ex, a_, 'blockdir::Address', 'len')
+                            same_ = b_and(eq(ef_['mtime'], f_.mtime.sec), eq(ef_['nanos'], f_.mtime.nanos), eq(tot_, f_.size))
+                            if same_ is True or (same_ is not False and ex.check_holds(same_)[0]):
+                                basis_files.append(pth)
     B, C, H = d['opts']
     opts = backup_options(ex, H, B, C, case.get('owner', True))
     try:
@@ -754,3 +773,7 @@ def follow_up(ex, d, case, problems, where):
             problems.append('%s follow-up: %s existed and was rewritten' % (where, p))
     written_again = stats_field(ex, r[1], 'written_blocks')
     d['followup_written_blocks'] = written_again
+    unmod = stats_field(ex, r[1], 'unmodified_files')
+    if not case.get('sym_meta') and unmod != len(set(basis_files)):
+        problems.append('%s follow-up: %d unchanged files are recorded in the (stitched) previous version but only %s were reused' % (
+            where, len(set(basis_files)), unmod))
